@@ -217,16 +217,15 @@ fn residual_new_case<const NP: usize, const NQ: usize, const NR: usize>() -> boo
 
 //@ prop: C18
 //@ drives: Residual::new, Residual::from_parts, Residual::verify, find_max, wrapping_sum
-//@ bound: partition order / block size / warm-up length free over all of usize; slice lengths (Rice parameters, quotients, remainders) = (1,2,2) or (2,4,4): the consistent shapes; every parameter, quotient and remainder value
+//@ bound: partition order / block size / warm-up length free over all of usize; slice lengths (Rice parameters, quotients, remainders) = (1,2,2); every parameter, quotient and remainder value
 //@ asserts: never panics; Ok(r) implies r.verify() is Ok, the stored fields equal the arguments, and r is well-formed (partition order <= 15, 2^order parameters all <= 14, lengths == block size, block divisible, warm-up within the first partition and zero-padded, remainders below 2^parameter, cached quotient sum exact) - the predicate under which c08_residual_* prove bits written == count_bits()
 //@ stubs: alloc::fmt::format -> empty string
 #[kani::proof]
 #[kani::unwind(70)]
 #[kani::stub(alloc::fmt::format, fmt_stub)]
 fn c18_residual_new_consistent() {
-    let sel: bool = kani::any();
-    let ok = if sel { residual_new_case::<1, 2, 2>() } else { residual_new_case::<2, 4, 4>() };
-    kani::cover!(ok && !sel);
+    let ok = residual_new_case::<1, 2, 2>();
+    kani::cover!(ok);
     kani::cover!(!ok);
 }
 
@@ -699,4 +698,13 @@ pub(crate) fn frame_of(h: FrameHeader, subs: Vec<SubFrame>) -> Frame {
 }
 pub(crate) fn stream_of(info: StreamInfo) -> Stream {
     Stream::with_stream_info(info)
+}
+pub(crate) fn any_verbatim_of<const N: usize>(bps: u8) -> Verbatim {
+    let mut s = [0i32; N];
+    let mut i = 0;
+    while i < N {
+        s[i] = any_sample(bps);
+        i += 1;
+    }
+    Verbatim::from_samples(&s, bps)
 }
